@@ -34,7 +34,7 @@ func init() {
 	extraGroups = append(extraGroups, Group{
 		Out:     "Jwks.lean",
 		NS:      "GenJwks",
-		Imports: []string{"OidcModel.Model.Jwks"},
+		Imports: []string{"OidcModel.Model.Jwks", "OidcModel.Generated.C09Facts"},
 		Opens:   []string{"Go", "Hand", "Const", "Jwks"},
 		Funcs: []FuncSpec{
 			{File: jwksFile, Name: "remoteKeySet.exactMatch", Lean: "exactMatch",
@@ -338,6 +338,39 @@ func (x *jwksX) update(fd *ast.FuncDecl) string {
 	return "[" + strings.Join(bs, ", ") + "]"
 }
 
+// jsonWebKeySet.UnmarshalJSON: json.Unmarshal(data, &raw) with its error returned, then one jose decode per entry; an entry is
+// appended only `if err == nil` (skipsBadKeys) or its error is returned (!skipsBadKeys)
+func (x *jwksX) keySetDecoder(fd *ast.FuncDecl) bool {
+	var st []string
+	var loop *ast.RangeStmt
+	for _, s := range fd.Body.List {
+		if r, ok := s.(*ast.RangeStmt); ok {
+			loop = r
+			st = append(st, "<range "+x.src(r.X)+">")
+			continue
+		}
+		st = append(st, x.src(s))
+	}
+	want := []string{"var raw rawJSONWebKeySet", "err = json.Unmarshal(data, &raw)", "if err != nil { return err }", "<range raw.Keys>", "return nil"}
+	if strings.Join(st, "\n") != strings.Join(want, "\n") || loop == nil {
+		x.bad("jsonWebKeySet.UnmarshalJSON: statements "+strings.Join(st, " ; "), fd)
+		return true
+	}
+	var body []string
+	for _, s := range loop.Body.List {
+		body = append(body, x.src(s))
+	}
+	b := strings.Join(body, "\n")
+	switch b {
+	case "webKey := new(jose.JSONWebKey)\nerr = webKey.UnmarshalJSON(key)\nif err == nil { k.Keys = append(k.Keys, *webKey) }":
+		return true
+	case "webKey := new(jose.JSONWebKey)\nerr = webKey.UnmarshalJSON(key)\nif err != nil { return err }\nk.Keys = append(k.Keys, *webKey)":
+		return false
+	}
+	x.bad("jsonWebKeySet.UnmarshalJSON: loop body "+strings.Join(body, " ; "), loop)
+	return true
+}
+
 func jwksFacts(g *genCtx) string {
 	x := &jwksX{g: g}
 	var b strings.Builder
@@ -349,6 +382,14 @@ func jwksFacts(g *genCtx) string {
 	}
 	ef := x.enter(kfr)
 	blocks := x.update(upd)
+	skips := true
+	if ks := g.findFunc(jwksFile, "jsonWebKeySet.UnmarshalJSON"); ks != nil {
+		skips = x.keySetDecoder(ks)
+	} else {
+		x.bad("jsonWebKeySet.UnmarshalJSON not found", nil)
+	}
+	b.WriteString("/-- `HttpRequest` (pkg/http/http.go): its decision structure, read off the statement skeleton regenerated for C09 -/\n")
+	b.WriteString("def http : Jwks.HttpFacts := (Jwks.HttpFacts.ofSkeleton GenC09.HttpRequest_skeleton).getD Jwks.HttpFacts.unsupported\n\n")
 	fmt.Fprintf(&b, "/-- shape of `keysFromRemote` (%s:%d) and `updateKeys` (%s:%d) -/\n", jwksFile, g.fset.Position(kfr.Pos()).Line, jwksFile, g.fset.Position(upd.Pos()).Line)
 	if len(x.unsup) > 0 {
 		g.unsup["GenJwks.facts"] = x.unsup
@@ -360,11 +401,11 @@ func jwksFacts(g *genCtx) string {
 		if ef.spawnCtx == "" {
 			ef.spawnCtx = ".caller"
 		}
-		fmt.Fprintf(&b, "def facts : Jwks.Facts :=\n  { guardNil := %v, storeNew := %v, spawnCtx := %s, spawnPoint := %v, selectCtx := %v,\n    updBlocks := %s }\n\n",
-			ef.guardNil, ef.storeNew, ef.spawnCtx, ef.spawnPoint, ef.selectCtx, blocks)
+		fmt.Fprintf(&b, "def facts : Jwks.Facts :=\n  { guardNil := %v, storeNew := %v, spawnCtx := %s, spawnPoint := %v, selectCtx := %v,\n    http := http, skipsBadKeys := %v,\n    updBlocks := %s }\n\n",
+			ef.guardNil, ef.storeNew, ef.spawnCtx, ef.spawnPoint, ef.selectCtx, skips, blocks)
 	}
 	g.facts["jwks"] = map[string]any{"guardNil": ef.guardNil, "storeNew": ef.storeNew, "spawnCtx": ef.spawnCtx, "spawnPoint": ef.spawnPoint,
-		"selectCtx": ef.selectCtx, "updBlocks": blocks}
+		"selectCtx": ef.selectCtx, "updBlocks": blocks, "skipsBadKeys": skips}
 	b.WriteString("/-- the translated decision functions as the `Logic` parameter of the transition system -/\n")
 	b.WriteString("def logic : Jwks.Logic :=\n")
 	b.WriteString("  { verifySignature := fun r cachedKeys remote jws => VerifySignature 0 r cachedKeys remote jws,\n")
